@@ -257,6 +257,27 @@ Section MergeP.
       rewrite (repath_datas _ _ _ E0). f_equal. apply (IH rel); [exact E'|now injection Hl].
   Qed.
 
+  (* legacy path on single files: every merged row group carries the relative path of the file it came from *)
+  Theorem legacy_paths_simple verify basepath rel pfs bp sch rgs n :
+    Forall (fun pf => pf_simple S X pf = true) pfs ->
+    legacy_merge verify basepath rel pfs = MOk S X bp sch rgs n ->
+    map (rg_path X) rgs = concat (map (fun pr => map (fun _ => Some (snd pr)) (pf_rgs S X (fst pr))) (combine pfs rel)).
+  Proof.
+    intros Hs. unfold Merge.legacy_merge. destruct pfs as [|pf0 rest]; [discriminate|].
+    destruct (verify && _); [discriminate|].
+    destruct (all_some _) as [l|] eqn:E; [|discriminate]. intros [= <- <- <- <-].
+    revert E Hs. generalize (pf0 :: rest) as pfs. clear pf0 rest. intros pfs. revert rel l.
+    induction pfs as [|pf pfs IH]; intros [|fn rel] l; cbn [combine map all_some concat].
+    - now intros [= <-].
+    - now intros [= <-].
+    - now intros [= <-].
+    - intros E Hs. inversion Hs as [|? ? Hpf Hr]; subst. cbn [fst snd] in E.
+      unfold Merge.repath in E at 1. rewrite Hpf in E.
+      destruct (all_some _) as [l'|] eqn:E'; [|discriminate]. cbn in E. injection E as <-.
+      cbn [concat]. rewrite map_app. f_equal; [|now apply (IH rel)].
+      rewrite map_map. reflexivity.
+  Qed.
+
   (* with verify_schema a file whose schema differs from the first one's is rejected *)
   Theorem verify_rejects basepath rel pf0 rest :
     (exists pf, In pf rest /\ seqb (pf_schema S X pf) (pf_schema S X pf0) = false) ->
